@@ -211,6 +211,10 @@ def check(ctx, rep):
     rep.rule('R03.g', 'a command reports done / ends its stream only when its event and effect queues are empty, so no emitted event is dropped by its host', floor=3)
     c07.check_is_done(rep, 'R03.g', core)
     c07.check_stream_end(rep, 'R03.g', core)
+    # R03.j: an event a task emits after a join is applied only if the joining task is polled again: every task that leaves a command —
+    # finished, aborted or evicted — publishes `finished` and wakes its join handles (shared with C07 R07.b)
+    rep.rule('R03.j', 'every task that leaves a command publishes `finished` and wakes its join handles', floor=2)
+    c07.check_finish_notify(rep, 'R03.j', core)
     # R03.i: an event that was emitted sits in a channel until the task that forwards it is polled again: no hand-written poll function on
     # that path (the command stream, the sink a hosted command forwards into, the request / stream futures) may answer Pending without
     # having kept the waker (shared with C05 R05.c)
